@@ -140,6 +140,22 @@ func (s *Server) LogSince(n int) []Entry {
 	return out
 }
 
+// ResetLog empties the command log and clears a pending injected rejection.
+func (s *Server) ResetLog() {
+	s.mu.Lock()
+	s.log = nil
+	s.seq = 0
+	s.rejectSet = 0
+	s.mu.Unlock()
+}
+
+// PendingRejects is the number of injected rejections not yet consumed.
+func (s *Server) PendingRejects() int {
+	s.mu.Lock()
+	defer s.mu.Unlock()
+	return s.rejectSet
+}
+
 // RejectNextSet makes the server reject the next n SET statements (any connection)
 // atomically with error 1205, whatever their content.
 func (s *Server) RejectNextSet(n int) {
@@ -166,15 +182,17 @@ func (s *Server) StateOf(id uint32) (Snapshot, bool) {
 	return st.Snapshot(), true
 }
 
-func (s *Server) record(e Entry) {
+func (s *Server) record(e Entry) int {
 	if s.opts.NoLog {
-		return
+		return -1
 	}
 	s.mu.Lock()
 	s.seq++
 	e.Seq = s.seq
 	s.log = append(s.log, e)
+	idx := len(s.log) - 1
 	s.mu.Unlock()
+	return idx
 }
 
 func (s *Server) acceptLoop() {
@@ -422,8 +440,16 @@ func (s *Server) query(id uint32, p *pconn, st *State, sql string) bool {
 	if res.Gen != nil {
 		e.RowsMade = res.Gen.N
 	}
+	// record before answering: whoever has seen the answer can rely on the log entry
+	idx := s.record(e)
 	ok := s.writeResult(p, st, res, &e)
-	s.record(e)
+	if idx >= 0 {
+		s.mu.Lock()
+		if idx < len(s.log) && s.log[idx].Conn == e.Conn && s.log[idx].SQL == e.SQL {
+			s.log[idx].RowsSent = e.RowsSent
+		}
+		s.mu.Unlock()
+	}
 	return ok
 }
 
